@@ -16,7 +16,7 @@ func init() {
 	register(&Check{
 		Meta: report.Meta{
 			Property: "C18",
-			Rule: "stateless exploration under the cooperative scheduler of 2-3 threads, each creating its own runner from its own script (options, markup incl. open-form replacement markers, random built-ins with equal and different seeds, visit counters, converted functions, immediate commands, RestoreAt from a snapshot value shared by the threads) and stepping it along a fixed path; " +
+			Rule: "stateless exploration under the cooperative scheduler of 2-3 threads, each creating its own runner from its own script (options, markup incl. open-form replacement markers, random built-ins with equal and different seeds, visit counters, converted functions, immediate commands, RestoreAt from a snapshot value shared by the threads, and a syntactically invalid script whose load must fail next to valid loads) and stepping it along a fixed path; " +
 				"L1: scheduling points at every API call, ALL interleavings; L3: additionally a scheduling point at every function entry of the hand-written packages, at every Mutex / RWMutex operation of the ANTLR runtime and at the sync.Once of the generated recognisers (sources rewritten, ANTLR mutex.go replaced through a go build overlay), 2 threads, preemption bound 1 (quick) / 2 (thorough), warm caches, and cold (static data of the recognisers reset before each execution) with bound 1; " +
 				"oracle: the observation trace of every thread equals the trace of the same task run alone, no panic, no deadlock; plus a free-running -race pass (goroutines x runners over the same scripts, cold start included); a case is one complete schedule; non-trivial = schedule with at least one context switch between two API calls / inside a call",
 			StatesMean:  "distinct complete schedules; transitions = scheduling points granted",
@@ -70,6 +70,9 @@ then {dice(6)} {dice(6)}
 ===
 `
 
+// c18ScriptBad is not a valid script (its load must fail, alone and next to other loads).
+const c18ScriptBad = "title: X\n---\n<<set $x to to 1>>\nline\n<<if>>\n===\n"
+
 const c18ScriptLine = "title: L\n---\nonly [b]line[/b] {dice(6)}\n===\n"
 const c18ScriptOpt = "title: O\n---\n-> o1\n    in {random_range(1,9)}\n-> o2\nafter\n===\n"
 
@@ -92,7 +95,7 @@ func (t *c18Task) run(api func()) string {
 	api()
 	dr, err := ysgo.NewDialogueRunner(nil, t.seed, strings.NewReader(t.script))
 	if err != nil {
-		return "load error: " + err.Error()
+		return "load error" // the class only: messages are not compared
 	}
 	c18Install(dr, &log)
 	r := &yc.Real{DR: dr}
@@ -151,7 +154,8 @@ func runC18(ctx *report.Ctx) {
 	tR2 := &c18Task{name: "A/restore shared snapshot/2", script: c18ScriptA, seed: "q", path: []int{0, 0, 0, 0, 0}, restore: true}
 	tL := &c18Task{name: "one line", script: c18ScriptLine, seed: "abc", path: []int{0, 0}}
 	tO := &c18Task{name: "one option group", script: c18ScriptOpt, seed: "abc", path: []int{0, 0, 0}}
-	all := []*c18Task{tA1, tA2, tA3, tC, tR1, tR2, tL, tO}
+	tBad := &c18Task{name: "invalid script (load must fail)", script: c18ScriptBad, seed: "abc", path: nil}
+	all := []*c18Task{tA1, tA2, tA3, tC, tR1, tR2, tL, tO, tBad}
 	alone := map[*c18Task]string{}
 	for _, t := range all {
 		alone[t] = t.run(func() {}) // no execution active: plain run (also warms the caches)
@@ -283,6 +287,7 @@ func runC18(ctx *report.Ctx) {
 		{"line || option group", []*c18Task{tL, tO}, 0},
 		{"line || line", []*c18Task{tL, tL}, 0},
 		{"option group || option group", []*c18Task{tO, tO}, 0},
+		{"invalid script || line", []*c18Task{tBad, tL}, 0},
 	}
 	for i, sc := range l3 {
 		explore1(fmt.Sprintf("L3-warm-%d", i+1), sc, vsched.Options{PreemptionBound: bound}, false, 2)
@@ -318,6 +323,7 @@ func C18RaceTasks() (names []string, tasks []func() string) {
 		{name: "A/restore shared snapshot/2", script: c18ScriptA, seed: "q", path: []int{0, 0, 0, 0, 0}, restore: true},
 		{name: "one line", script: c18ScriptLine, seed: "abc", path: []int{0, 0}},
 		{name: "one option group", script: c18ScriptOpt, seed: "abc", path: []int{0, 0, 0}},
+		{name: "invalid script (load must fail)", script: c18ScriptBad, seed: "abc"},
 	}
 	for _, t := range list {
 		t := t
